@@ -37,6 +37,8 @@ fn prefix_profile() -> Profile {
         auto_broker_pct: 20,
         max_packet: vec![None, None, Some(24), Some(80)],
         keepalive: vec![0, 0, 2, 4, 30],
+        w_advance: 2,
+        w_pingresp: 1,
         max_qos: vec![None, None, Some(0), Some(1)],
         ..Profile::default()
     }
@@ -60,6 +62,9 @@ fn final_steps() -> Vec<Step> {
     vec![
             Step::SetBroker(BrokerMode::AutoAck),
             Step::PollIdle { max: DRAIN_MAX },
+            // time passes: deadlines left over from earlier connections must not fire here
+            Step::Advance { ms: 5500 },
+            Step::PollIdle { max: 20 },
             // usability probe
             Step::Broker(BrokerAct::Deliver { qos: 1, retain: false, topic: TopicSpec::new(1, 0), payload: PayloadSpec::new(0, 1), props: vec![], redeliver: None }),
             Step::PollIdle { max: 20 },
@@ -108,6 +113,9 @@ pub fn strategy() -> BoxedStrategy<Case> {
                 c.connect.handshake == Handshake::Accept
                     && !c.steps.iter().any(|s| matches!(s, Step::Eof | Step::FaultAt { .. } | Step::Disconnect { .. } | Step::Broker(BrokerAct::Disconnect { .. })))
             });
+            // an application that lets time pass without polling can lose the connection to the
+            // keep-alive (PINGRESP not read in time): then the continuation needs a reconnect
+            let last_ok = last_ok && !(case.cfg.keepalive > 0 && case.conns.last().is_some_and(|c| c.steps.iter().any(|s| matches!(s, Step::Advance { .. }))));
             if same < 3 && last_ok {
                 // the connection was not lost: the benign continuation happens on it
                 let last = case.conns.last_mut().unwrap();
